@@ -22,16 +22,18 @@ from props.policy_common import peer_tokens, mk_kex, FakeBanner
 MODULE = 'SshAudit.Props.C05File'
 NAMESPACE = 'SshAudit.C05File'
 THEOREMS = [
-    # text primitives
-    'stripU_spec', 'stripU_decomp', 'stripU_idem', 'splitOn_join_newline', 'splitKV_general', 'parseAlgs_join',
-    # json
-    'parseStrBody_dumpStr', 'loads_dumpHostKeys', 'loads_dumpDh', 'hksOfJsonTop_dump', 'dhOfJson_dump',
+    # str.strip / split / join
+    'stripU_spec', 'stripU_decomp', 'stripU_idem', 'splitKV_general', 'splitOn_join_newline', 'parseAlgs_stripU', 'parseAlgs_join',
+    # json.loads (json.dumps d) = d on the shapes create writes (strings: every Unicode scalar value)
+    'parseStrBody_esc', 'parseStrBody_dumpStr', 'parseNum_natToStr', 'parseValue_dumpHKS', 'loads_dumpDict', 'loads_dumpHostKeys', 'loads_dumpDh',
+    'dictOf_nodup', 'hksOfJsonTop_dump', 'dhOfJson_dump',
     # the parser on its line shapes
-    'step_blank', 'step_comment', 'step_noEq', 'step_unknown_key', 'step_unquoted', 'parseLines_skip_comment_or_blank',
-    'parse_missing_name', 'parse_missing_version', 'last_list_directive_wins', 'last_name_wins', 'flags_sticky',
+    'step_blank', 'step_comment', 'step_noEq', 'step_kv', 'step_unknown_key', 'step_unquoted', 'parseLines_skip_comment_or_blank',
+    'parse_insert_comment_or_blank', 'last_list_directive_wins', 'last_name_wins', 'flags_sticky', 'parse_missing_name', 'parse_missing_version',
     # create -> parse
-    'parse_create', 'parse_create_client', 'made_text_policy_passes', 'made_text_policy_drift_kex', 'made_text_policy_drift_hostkeys',
-    'made_text_policy_drift_ciphers', 'made_text_policy_drift_macs', 'realistic_peer_wf',
+    'createLines_noNl', 'lines_of_create', 'parseLines_createLines', 'parse_create_with', 'parse_create', 'parse_create_client', 'madeName_plain',
+    'made_text_policy_passes', 'made_text_policy_drift_kex', 'made_text_policy_drift_hostkeys', 'made_text_policy_drift_ciphers',
+    'made_text_policy_drift_macs', 'made_text_policy_drift_sizes', 'realistic_peer_wf',
 ]
 
 HOW = 'Policy.create / Policy(policy_data=…) / evaluate on the real code (harness/props/ext/C05_file.py)'
@@ -164,7 +166,10 @@ def expected_made(q, source, today, client_audit):
 
 def check_roundtrip(q, source, client_audit):
     """the (a) oracle on one peer: list of (what, observed, expected)"""
-    today, text = impl_create(q, source, client_audit)
+    try:
+        today, text = impl_create(q, source, client_audit)
+    except Exception as e:  # noqa
+        return [('create_raises', repr(e), 'Policy.create returns the policy text')], ''
     got, pol = impl_parse(text)
     bad = []
     if 'ok' not in got:
@@ -271,6 +276,9 @@ HAND = [
     ('broken-json-empty', NV + 'host_key_sizes =\n', err('json')),
     ('json-not-dict-of-dicts', NV + 'host_key_sizes = {"a": 3072}\n', err('type')),
     ('json-number', NV + 'host_key_sizes = 3072\n', err('type')),
+    ('json-inner-string', NV + 'host_key_sizes = {"a": "3072"}\n', err('type')),
+    ('json-inner-list', NV + 'host_key_sizes = {"a": {"hostkey_size": 1}, "b": ["hostkey_size", 1]}\n', err('type')),
+    ('json-inner-null', NV + 'host_key_sizes = {"a": null}\n', err('type')),
     ('first-error-wins', 'bogus = 1\nname = x\n', err('badfield', 'bogus = 1')),
     ('line-error-before-missing-name', 'version = 1\nbanner = x y\n', err('unquoted', 'banner', 'x y')),
 ]
@@ -371,6 +379,9 @@ def directive_lines(text):
 
 
 LIST_KEYS = ('compressions', 'host keys', 'optional host keys', 'key exchanges', 'ciphers', 'macs')
+# the documented directives (README / policy files shipped with the tool)
+DIRECTIVES = ('name', 'version', 'banner', 'client policy', 'host_key_sizes', 'dh_modulus_sizes', 'allow_algorithm_subset_and_reordering', 'allow_larger_keys') + LIST_KEYS
+LEGACY_PREFIXES = ('hostkey_size_', 'cakey_size_', 'dh_modulus_size_')
 
 
 def harmless_variant(r, text):
@@ -421,6 +432,8 @@ def malformed_variant(r, text):
         i = r.choice(dl)
         k, v = lines[i].split('=', 1)
         nk = r.choice(['x-' + k.strip(), k.strip().upper() if k.strip().upper() != k.strip() else 'y' + k.strip(), k.strip().replace(' ', '_') + '_', 'hostkey-size_' + k.strip()])
+        if nk in DIRECTIVES or nk.startswith(LEGACY_PREFIXES):
+            return None
         lines[i] = nk + ' =' + v
         return kind, '\n'.join(lines), err('badfield', lines[i].strip())
     if kind in ('unquote-name', 'unquote-name-end'):
@@ -486,7 +499,11 @@ def run(ctx):
     for _ in range(ctx.scale(160, 4000)):
         peers.append((gen_file_peer(r, db), gen_source(r), r.random() < 0.25, ['generated']))
     for q, source, ca, tags in peers:
-        today, text = impl_create(q, source, ca)
+        try:
+            today, text = impl_create(q, source, ca)
+        except Exception as e:  # noqa
+            fail({'kind': 'roundtrip', 'what': 'create_raises'}, {'peer': q, 'source': source, 'client_audit': ca}, repr(e), 'Policy.create returns the policy text')
+            continue
         lines.append('policyfile.create %s %s %s %s' % (tstr(source), tstr(today), tbool(ca), peer_tokens(q)))
         expect.append(('create', {'ok': text}))
         ask_parse(text, 'parse-made')
@@ -504,7 +521,11 @@ def run(ctx):
     for _ in range(ctx.scale(60, 1500)):
         q, k = gen_outside_peer(r, db)
         source, ca = (gen_odd_source(r) if r.random() < 0.5 else gen_source(r)), r.random() < 0.3
-        today, text = impl_create(q, source, ca)
+        try:
+            today, text = impl_create(q, source, ca)
+        except Exception as e:  # noqa
+            fail({'kind': 'roundtrip', 'what': 'create_raises'}, {'peer': q, 'source': source, 'client_audit': ca}, repr(e), 'Policy.create returns the policy text')
+            continue
         lines.append('policyfile.create %s %s %s %s' % (tstr(source), tstr(today), tbool(ca), peer_tokens(q)))
         expect.append(('create', {'ok': text}))
         ask_parse(text, 'parse-made-outside')
